@@ -86,8 +86,13 @@ class Layout(object):
         sl(self.base, os.path.join(root, 'other', 'backin'))                               # outside dir -> base
         sl(os.path.join(self.base, 'sub'), os.path.join(root, 'other', 'tosub'))           # outside dir -> inside subdir
         sl(os.path.join(root, b + '2'), os.path.join(self.base, 'sub', 'up'))              # inside dir link -> sibling
+        sl(os.path.join(self.base, 'lnk.tex'), os.path.join(self.base, 'chain.tex'))         # symlink -> symlink -> outside
+        sl('../..', os.path.join(self.base, 'sub', 'up2'))                                  # dir symlink to the parent of base
+        sl('..', os.path.join(self.base, 'sub', 'self'))                                    # dir symlink back to base (inside)
+        sl(os.path.join(root, 'other', 'noext'), os.path.join(self.base, 'chain2.latex'))   # only with .latex -> outside
         self.components = ['in', 'in.tex', 'sub', 'deep', 'deep.tex', 'subsub', 'x', '..', '.', 'noext', 'both', 'l',
-                           'lnk', 'lnk.tex', 'lnkdir', 'out', 'out.tex', 'lnkin', 'ext', 'ext2', 'rel', 'up', 'sib',
+                           'lnk', 'lnk.tex', 'lnkdir', 'out', 'out.tex', 'lnkin', 'ext', 'ext2', 'rel', 'up', 'sib', 'chain', 'chain2',
+                           'up2', 'self',
                            'sib.tex', b, b + '2', b + '-x', b + '.tex', 'other', 'secret', 'backin', 'tosub', 'd', '']
         self.base_spellings = [self.base, self.base + '/', os.path.join(root, 'other', 'backin'),
                                os.path.join(root, b + '2', '..', b), os.path.join(self.base, 'sub', '..')]
